@@ -29,6 +29,10 @@ FacetValues == [
     cover  |-> {"ok", "outside", "wider", "straddle", "nores", "inherit", "hasip4", "hasip6", "ipinherit"},
     crl    |-> {"ok", "revoked"} ]
 Facets == DOMAIN FacetValues
+\* ROA: the address family the coverage facet is realised in (the prefixes, the certificate's blocks, the deviation); with "+"
+\* conforming prefixes of the other family, covered by the certificate, are present as well.  roa.rs checks the two families in
+\* two separate loops; the statement speaks of "every ROA prefix".
+Fams == {"v4", "v6", "v4+", "v6+"}
 \* which coverage deviations exist for which kind of object
 CoverFor(k) == CASE k = "roa"  -> {"ok", "outside", "wider", "straddle", "nores"}
                  [] k = "aspa" -> {"ok", "outside", "inherit", "hasip4", "hasip6", "ipinherit"}
@@ -45,13 +49,16 @@ DecodeRejects(o) == o.f.attrs # "ok" \/ o.f.ctattr # "ok"
 
 VARIABLES obj, devs
 vars == <<obj, devs>>
-Init == \E k \in Kinds, s \in Sizes :
+Init == \E k \in Kinds, s \in Sizes, fm \in Fams :
           /\ (k # "gen" => s = "small")            \* ROA / ASPA / manifest attribute sets have a fixed size
-          /\ obj = [kind |-> k, size |-> s, f |-> Conforming] /\ devs = 0
+          /\ (k # "roa" => fm = "v4")
+          /\ obj = [kind |-> k, size |-> s, fam |-> fm, f |-> Conforming] /\ devs = 0
 Deviate == /\ devs < MaxDev
            /\ \E fc \in Facets : \E v \in FacetValues[fc] :
                 /\ obj.f[fc] = "ok" /\ v # "ok"
                 /\ (fc = "cover" => v \in CoverFor(obj.kind))
+                \* "a family the certificate has no resources for" needs a family the certificate does not hold
+                /\ (fc = "cover" /\ v = "nores" => obj.fam \in {"v4", "v6"})
                 /\ (fc = "crl" => obj.kind \in {"roa", "aspa"})          \* only process() takes a CRL callback
                 /\ obj' = [obj EXCEPT !.f[fc] = v]
            /\ devs' = devs + 1
